@@ -262,7 +262,7 @@ func c17Merge(c *rig.Ctx) {
 	c.Rule("triples (base, left, right): base is a generated object (one in four spans several chunks), each side is base plus 1-4 PRNG edits (set / add member / remove / replace subtree / array element edits); " +
 		"overlap modes: independent, same location same value, same location different value, ancestor vs descendant, and prefix families (left edits below key k and key k+suffix, right edits key k+suffix). " +
 		"Each triple is merged with all-stored, all-in-memory and mixed wrappers. distinct = (overlap mode, expected outcome, wrapper mix, multi-chunk)")
-	c.Assume("top-level non-object inputs are only asserted under the row merger's precondition (both sides changed the cell, differently)")
+	c.Assume("triples are only asserted under the row merger's precondition for calling MergeJSON: left != base, right != base, left != right")
 	c.Assume("different positions of one array edited by both sides: conflict (dolt's documented conservative rule) and the index-wise merge are both accepted")
 	x := &c17Run{c: c, ns: tree.NewTestNodeStore()}
 	lim := newLimiter(c, "c17.further_violations_same_key")
@@ -353,14 +353,15 @@ func c17Merge(c *rig.Ctx) {
 		_, rObj := right.(map[string]any)
 		allObj := bObj && lObj && rObj
 		precond := !jEqual(base, left) && !jEqual(base, right) && !jEqual(left, right)
+		if !precond {
+			// the row merger only calls MergeJSON when both sides changed the cell, differently
+			c.Count("c17.merge_skipped_outside_callers_precondition", 1)
+			continue
+		}
 		var want m3
 		if allObj {
 			want = merge3(jopt{base, true}, jopt{left, true}, jopt{right, true})
 		} else {
-			if !precond {
-				c.Count("c17.merge_skipped_non_object_without_precondition", 1)
-				continue
-			}
 			want = m3{conflict: true}
 		}
 		payload := map[string]any{"mode": mode, "left_edits": le, "right_edits": re, "multi_chunk": multi}
